@@ -8,7 +8,7 @@ ASSUMPTIONS = ['numbers in the interoperable range; -0 and member-order permutat
 TRUSTED = ['SipHash collisions are outside the model']
 
 SPELL = [b'1', b'1.0', b'1e0', b'10e-1', b'2', b'2.50', b'2.5', b'"a"', b'"\\u0061"', '"é"'.encode('utf8'), b'"\\u00e9"', b'null', b'true', b'[1,2]', b'[1.0, 2]', b'[]',
-         b'{"a":1}', b'{"a":1.0}', b'{"a":1,"b":[2]}', b'{"a": 1, "b": [2.0]}', b'""', b'[[]]', b'0', b'0.0', b'{"k":"x","a":1}', b'{"k":"x","a":1e0}']
+         b'{"a":1}', b'{"a":1.0}', b'{"a":1,"b":[2]}', b'{"a": 1, "b": [2.0]}', b'""', b'[[]]', b'0', b'0.0', b'0e0', b'[0]', b'[0.0]', b'{"a":{"b":1}}', b'{"a":{},"b":1}', b'{"a":{"b":{"c":2}}}', b'{"a":{"b":{}},"c":2}', b'{"a":{"b":{},"c":2}}', b'[[1],[2]]', b'[[1,2]]', b'["ab"]', b'["a","b"]', b'{"k":"x","a":1}', b'{"k":"x","a":1e0}']
 
 def run(ctx):
     rnd = ctx['rnd']; n = 300 if ctx['tier'] == 'quick' else 12000
@@ -22,6 +22,17 @@ def run(ctx):
         if rnd.random() < 0.3: cfg['filter'] = rnd.choice(['(!= . null)', '(!= .a 2)'])
         cases.append(mkcase('Q%d' % i, cfg, data)); cases.append(mkcase('N%d' % i, clone_cfg(cfg, unique=False), data))
         meta.append((cfg, data))
+    # selections that are absent in complementary columns: [1, absent] vs [absent, 1] are different rows
+    COMP = [b'{"a":1}', b'{"b":1}', b'{"a":1,"b":1}', b'{"a":2}', b'{"b":2}', b'{}', b'{"c":1}', b'{"a":1,"c":1}', b'{"b":1,"c":1}', b'{"a":null}', b'{"b":null}']
+    for i in range(n // 3):
+        m = rnd.choice([2, 4, 8, 16])
+        data = b'\n'.join(rnd.choice(COMP) for _ in range(m))
+        sel = rnd.choice([['.a', '.b'], ['.a=x', '.b=y', '.c=z'], ['.b', '.a'], ['.a', '.c'], ['.a', '.b', '.c', '.d']])
+        cfg = lib.new_cfg(select=sel, unique=True)
+        if rnd.random() < 0.3: cfg['group'] = True
+        cases.append(mkcase('Q%d' % (n + i), cfg, data)); cases.append(mkcase('N%d' % (n + i), clone_cfg(cfg, unique=False), data))
+        if cfg['group'] is None: meta.append((cfg, data))
+        else: meta.append(None)
     # pipelines from the common generator too
     for i in range(n // 3):
         cfg = gen.pipeline_cfg(rnd, allow_unique=False); cfg['unique'] = True
@@ -29,7 +40,9 @@ def run(ctx):
         cases.append(mkcase('q%d' % i, cfg, data))
     impl, model, mism = common.correspond(cases)
     violations = []; checked = 0
-    for i, (cfg, data) in enumerate(meta):
+    for i, md in enumerate(meta):
+        if md is None: continue
+        cfg, data = md
         q = impl['Q%d' % i]; nn = impl['N%d' % i]
         if q['result'] != 'ok' or nn['result'] != 'ok':
             if q['result'] in ('panic', 'hang', 'abort'): violations.append(viol(cfg, data, 'run completes', q['result'], 'ok'))
